@@ -1,5 +1,6 @@
 import Slock.Proofs.EngineInv
 import Slock.Proofs.EngineConsts
+import Slock.Proofs.EngineUniform
 /-!
 # C01 — mutual exclusion and Count capacity bound per key
 
@@ -139,5 +140,83 @@ def c2 : Cmd := { c1 with req := 2, lockId := 2 }
 example : classifyLock (run (DB.init 100) [.lock c1]) c2 = .grant := by decide
 example : depthSum ((run (DB.init 100) [.lock c1]).getKey 7).holders = 1 := by decide
 example : classifyLock (run (DB.init 100) [.lock c1, .lock c2]) { c2 with req := 3, lockId := 3 } = .timeout := by decide
+
+
+/-! ## Uniform Count: never more than `c + 1` simultaneous holders
+
+If every LOCK command of the sequence that names key `k` carries the same `Count = c < 0xffff` (commands for other keys
+are arbitrary; updates and re-locks of `k` carry `c` too), then in every reachable state key `k` has at most `c + 1`
+holders — for `c = 0` at most one (`C01_mutex`). Re-entrant depth is not bounded by Count (a re-lock is admitted on
+`Rcount`), which is why the statement counts holders, not `locked`. -/
+
+/-- the invariants behind the corollary, in every reachable state -/
+theorem reachable_U3 (now : Nat) (ops : List Op) (k c : Nat) (hc : c < 0xffff)
+    (hu : ∀ cmd, Op.lock cmd ∈ ops → cmd.key = k → cmd.count = c) : U3 k c (run (DB.init now) ops) := by
+  unfold run
+  have : ∀ (ops : List Op) (db : DB), (∀ cmd, Op.lock cmd ∈ ops → cmd.key = k → cmd.count = c) → U3 k c db →
+      U3 k c (ops.foldl step db) := by
+    intro ops
+    induction ops with
+    | nil => intro db _ h; exact h
+    | cons o os ih =>
+      intro db hu h
+      simp only [List.foldl_cons]
+      apply ih _ (fun cmd hm => hu cmd (List.mem_cons_of_mem _ hm))
+      cases o with
+      | lock cmd => exact opLock_u3 k c hc db cmd (hu cmd (by simp)) h
+      | unlock cmd => exact opUnlock_u3 k c hc db cmd h
+      | tick => exact opTick_u3 k c hc db h
+      | setLeader b => exact ⟨h.inv.of_keys_eq rfl, h.uc.of_keys_eq rfl, h.wc.of_sub (fun _ hx => mem_allW_of_keys_eq rfl hx)⟩
+  exact this ops _ hu (U3.init k c now)
+
+/-- **C01, uniform Count.** With every LOCK for key `k` carrying `Count = c < 0xffff`, the key never has more than
+`c + 1` simultaneous holders, and every request queued under `k` carries `Count = c`. -/
+theorem C01_uniform_count (now : Nat) (ops : List Op) (k c : Nat) (hc : c < 0xffff)
+    (hu : ∀ cmd, Op.lock cmd ∈ ops → cmd.key = k → cmd.count = c) :
+    ((run (DB.init now) ops).getKey k).holders.length ≤ c + 1 ∧
+      ∀ w ∈ ((run (DB.init now) ops).getKey k).waiters, w.cmd.count = c := by
+  have h := reachable_U3 now ops k c hc hu
+  have := getKey_uc h.uc k (getKey_key _ k)
+  exact ⟨this.2, this.1⟩
+
+/-- … in every state reached on the way, too (the premise is inherited by prefixes). -/
+theorem C01_uniform_count_prefix (now : Nat) (pre post : List Op) (k c : Nat) (hc : c < 0xffff)
+    (hu : ∀ cmd, Op.lock cmd ∈ pre ++ post → cmd.key = k → cmd.count = c) :
+    ((run (DB.init now) pre).getKey k).holders.length ≤ c + 1 :=
+  (C01_uniform_count now pre k c hc (fun cmd hm => hu cmd (List.mem_append_left _ hm))).1
+
+/-- **Mutual exclusion.** With every LOCK for key `k` carrying `Count = 0`, the key never has two holders. -/
+theorem C01_mutex (now : Nat) (ops : List Op) (k : Nat)
+    (hu : ∀ cmd, Op.lock cmd ∈ ops → cmd.key = k → cmd.count = 0) :
+    ((run (DB.init now) ops).getKey k).holders.length ≤ 1 :=
+  (C01_uniform_count now ops k 0 (by decide) hu).1
+
+/-- decidable form of the premise -/
+def uniformCount (k c : Nat) (ops : List Op) : Bool :=
+  ops.all (fun o => match o with | .lock cmd => cmd.key != k || cmd.count == c | _ => true)
+
+theorem uniformCount_spec (k c : Nat) (ops : List Op) (h : uniformCount k c ops = true) :
+    ∀ cmd, Op.lock cmd ∈ ops → cmd.key = k → cmd.count = c := by
+  intro cmd hm hk
+  unfold uniformCount at h
+  have := List.all_eq_true.mp h _ hm
+  simp only [hk, bne_self_eq_false, Bool.false_or, beq_iff_eq] at this
+  exact this
+
+/-! ### Non-vacuity: Count 1 on key 7 (another key uses other Counts); two holders are reached, a third request waits,
+is granted after an unlock, and the bound `≤ 2` is attained -/
+def c3 : Cmd := { c2 with req := 3, lockId := 3, timeout := 5 }
+def other : Cmd := { c1 with req := 9, lockId := 9, key := 8, count := 5 }
+def opsU : List Op := [.lock c1, .lock other, .lock c2, .lock c3, .tick, .unlock { c1 with req := 4 }, .tick]
+example : ∀ cmd, Op.lock cmd ∈ opsU → cmd.key = 7 → cmd.count = 1 := uniformCount_spec 7 1 opsU (by decide)
+example : ((run (DB.init 100) [.lock c1, .lock other, .lock c2, .lock c3]).getKey 7).holders.length = 2 ∧
+    ((run (DB.init 100) [.lock c1, .lock other, .lock c2, .lock c3]).getKey 7).waiters.length = 1 := by decide
+example : (((run (DB.init 100) opsU).getKey 7).holders.map (·.cmd.req)) = [2, 3] := by decide
+def m1 : Cmd := { c1 with count := 0 }
+def m2 : Cmd := { m1 with req := 2, lockId := 2, timeout := 3 }
+example : ∀ cmd, Op.lock cmd ∈ [Op.lock m1, .lock m2, .tick] → cmd.key = 7 → cmd.count = 0 :=
+  uniformCount_spec 7 0 _ (by decide)
+example : ((run (DB.init 100) [.lock m1, .lock m2, .tick]).getKey 7).holders.length = 1 ∧
+    ((run (DB.init 100) [.lock m1, .lock m2, .tick]).getKey 7).waiters.length = 1 := by decide
 
 end Slock.C01
